@@ -307,10 +307,18 @@ func (w *world) build(s *MsgSpec) *specqbft.SignedMessage {
 			if len(msg.PrepareJustification) > 0 {
 				msg.PrepareJustification = msg.PrepareJustification[:len(msg.PrepareJustification)-1]
 			}
-		case "rcj-garbage":
-			msg.RoundChangeJustification = append(msg.RoundChangeJustification, []byte{1, 2, 3})
+		case "rcj-garbage": // the SSZ list holds at most 13 entries: a full list gets its last entry replaced
+			if len(msg.RoundChangeJustification) >= 13 {
+				msg.RoundChangeJustification[12] = []byte{1, 2, 3}
+			} else {
+				msg.RoundChangeJustification = append(msg.RoundChangeJustification, []byte{1, 2, 3})
+			}
 		case "pj-garbage":
-			msg.PrepareJustification = append(msg.PrepareJustification, []byte{9, 9})
+			if len(msg.PrepareJustification) >= 13 {
+				msg.PrepareJustification[12] = []byte{9, 9}
+			} else {
+				msg.PrepareJustification = append(msg.PrepareJustification, []byte{9, 9})
+			}
 		default:
 			post = append(post, m)
 		}
@@ -702,7 +710,7 @@ func genStep(n int) func(t *rapid.T) Step {
 }
 
 func gen(t *rapid.T) Prog {
-	n := rapid.SampledFrom([]int{4, 4, 7}).Draw(t, "n")
+	n := rapid.SampledFrom([]int{4, 4, 4, 7, 7, 10, 13}).Draw(t, "n")
 	p := Prog{N: n, Self: rapid.IntRange(1, n).Draw(t, "self"), Height: uint64(rapid.IntRange(0, n+1).Draw(t, "height")),
 		Start: rapid.SampledFrom([]string{"A", "B"}).Draw(t, "start")}
 	p.Steps = rapid.SliceOfN(rapid.Custom(genStep(n)), 1, 24).Draw(t, "steps")
